@@ -90,6 +90,7 @@ class Kernel:
         self.hung = False
         self.hang_limit = None
         self.lib_scope = None
+        self.site_counts = None
         self.now = 0.0  # simulated seconds (used only for waits with timeouts / sleep)
         self.counters = {"lib_threads_started": 0, "deadlocks": 0, "timeouts_fired_early": 0, "timeouts_by_idle": 0,
                          "blocks": 0, "lock_contention": 0, "unsimulated_concurrency": 0}
@@ -126,6 +127,7 @@ class Kernel:
         self.hung = False
         self.hang_limit = hang_limit
         self.lib_scope = frozenset(lib_scope) if lib_scope else None
+        self.site_counts = None
 
     def current(self):
         return self.by_ident.get(_thread.get_ident())
@@ -168,6 +170,9 @@ class Kernel:
     def preempt_point(self, task, frame):
         self.n += 1
         task.steps += 1
+        if self.site_counts is not None:
+            k = (frame.f_code.co_filename, frame.f_lineno)
+            self.site_counts[k] = self.site_counts.get(k, 0) + 1
         if self.hang_limit is not None and self.n > self.hang_limit:
             self.hang_limit = None  # raise once
             raise StepLimitExceeded(f"more than {self.n - 1} traced steps")
@@ -329,6 +334,8 @@ class Kernel:
         # from now on the spawning task needs pre-emption points in the library scope too
         if self.lib_scope is not None and not self.lib_scope <= self.scope:
             self.scope = self.scope | self.lib_scope
+            if self.hang_limit is not None:
+                self.hang_limit = max(self.hang_limit * 8, 40_000_000)  # the wider scope counts many more lines
         cur = self.current()
         if cur is not None:
             self.trace_current(cur)
